@@ -5,22 +5,22 @@
 # 3. applies the patch to /repo, runs ./check <id> quick (VERIF_OUT scratch), and undoes the patch
 set -u
 DIR="$1"; ID="$2"
-WT=/var/tmp/verif-seed-wt; BD=/var/tmp/verif-seed-build; OUT=/var/tmp/verif-seed-out
+S="${SLOT:-0}"; WT=/var/tmp/verif-seed-wt$S; BD=/var/tmp/verif-seed-build$S; OUT=/var/tmp/verif-seed-out$S
 if [ ! -d "$WT" ]; then git -C /repo worktree add -q --detach "$WT" HEAD || exit 2; fi
 git -C "$WT" checkout -q --detach "$(git -C /repo rev-parse HEAD)" && git -C "$WT" checkout -q -- . 
 git -C "$WT" apply "$DIR/patch.diff" || { echo "RESULT patch does not apply"; exit 2; }
 cmake -S "$WT" -B "$BD" -G Ninja -DCMAKE_BUILD_TYPE=RelWithDebInfo -DCMAKE_CXX_FLAGS=-Wno-error >/dev/null 2>&1
-if ! cmake --build "$BD" -j16 >"$BD.log" 2>&1; then echo "RESULT does not compile"; tail -5 "$BD.log"; git -C "$WT" checkout -q -- .; exit 1; fi
+if ! cmake --build "$BD" -j${CONFIRM_JOBS:-16} >"$BD.log" 2>&1; then echo "RESULT does not compile"; tail -5 "$BD.log"; git -C "$WT" checkout -q -- .; exit 1; fi
 T=$(ctest --test-dir "$BD" -j8 2>&1 | grep "tests passed")
 echo "tests with change: $T"
 # demo: link against the library cmake just built for the changed tree, then rebuild for the clean tree
 build_demo() { g++ -std=c++17 -O1 -pthread -I"$WT/include" -isystem /usr/include/eigen3 "$DIR/demo.cpp" -L"$BD" -lromea_core_common -Wl,-rpath,"$BD" -o "$1" 2>"$1.log"; }
-build_demo /var/tmp/verif-seed-demo-mut || { echo "demo does not compile (mutated)"; head -5 /var/tmp/verif-seed-demo-mut.log; }
-timeout 300 /var/tmp/verif-seed-demo-mut >/var/tmp/verif-seed-demo-mut.out 2>&1; M=$?
+build_demo /var/tmp/verif-seed-demo-mut$S || { echo "demo does not compile (mutated)"; head -5 /var/tmp/verif-seed-demo-mut$S.log; }
+timeout 300 /var/tmp/verif-seed-demo-mut$S >/var/tmp/verif-seed-demo-mut$S.out 2>&1; M=$?
 git -C "$WT" checkout -q -- .
-cmake --build "$BD" -j16 --target romea_core_common >>"$BD.log" 2>&1
-build_demo /var/tmp/verif-seed-demo-clean || { echo "demo does not compile (clean)"; head -5 /var/tmp/verif-seed-demo-clean.log; }
-timeout 300 /var/tmp/verif-seed-demo-clean >/var/tmp/verif-seed-demo-clean.out 2>&1; C=$?
+cmake --build "$BD" -j${CONFIRM_JOBS:-16} --target romea_core_common >>"$BD.log" 2>&1
+build_demo /var/tmp/verif-seed-demo-clean$S || { echo "demo does not compile (clean)"; head -5 /var/tmp/verif-seed-demo-clean$S.log; }
+timeout 300 /var/tmp/verif-seed-demo-clean$S >/var/tmp/verif-seed-demo-clean$S.out 2>&1; C=$?
 echo "demo exit with change: $M ; without: $C"
 # our check with the change applied: literally on /repo (default), or - while something else is using /repo -
 # on the scratch worktree through VERIF_REPO (CONFIRM_VIA_WORKTREE=1); tools/run_seeded.sh later repeats it on /repo
